@@ -203,8 +203,10 @@ theorem C30_scan_finds_close (q : Quote) (s rest : List Char) :
     simp only [Option.map_some]
     congr 1; omega
 
-/-- **One-line literals.** `'…'` and `"…"` as written by the printer lex to the intended text, are
-    consumed exactly (both quotes included) and produce no diagnostic. -/
+/-- **One-line literals.** Stated for `lexQuoted`, the scan that `lexOne` runs on the text *after* the
+    opening quote of a `'…'` / `"…"` literal (not for `lexOne` itself, which first decides between `"`
+    and `"""`): on the printer's body followed by the closing quote it yields the intended text, the
+    length of the whole literal (both quotes included) and no diagnostic. -/
 theorem C30_quoted_roundtrip (q : Quote) (s rest : List Char) :
     lexQuoted (quoteChar q) (escape q s ++ quoteChar q :: rest) = (s, (spellQuoted q s).length, []) := by
   unfold lexQuoted
@@ -620,12 +622,14 @@ theorem bodyText_length_ge (ind : List Char) (ls : List (List Char)) : ls.length
     simp only [List.length_append, List.length_cons, List.length_nil]
     omega
 
-/-- **Indentation stripping, from the source text.**  A triple-quoted literal in block form —
-    opener, a line break, the lines `ind ++ l₁ ⏎ … ind ++ lₙ ⏎` (common indentation `ind` of spaces
+/-- **Indentation stripping, from the source text.**  Stated for `lexTriple`, which `lexOne` runs on
+    the text *after* the opening `"""`.  That text in block form —
+    a line break, the lines `ind ++ l₁ ⏎ … ind ++ lₙ ⏎` (common indentation `ind` of spaces
     and/or tabs; blank lines allowed after the first; no line contains a line break or three
     consecutive quotes; some non-blank `lᵢ` starts with neither space nor tab), then blanks and the
     closing `"""` — denotes the lines with exactly the common indentation removed, joined by `\n`,
-    escape-decoded; and exactly the text up to and including the closer is consumed. -/
+    escape-decoded; and exactly the text up to and including the closer is consumed (the count is
+    relative to the text after the opener). -/
 theorem C30_strip_spec (ind : List Char) (hind : IsIndent ind) (ls : List (List Char)) (w rest : List Char)
     (hw : ∀ x ∈ w, x = ' ' ∨ x = '\t')
     (hgood : ∀ l ∈ ls, (∀ x ∈ ind ++ l, x ≠ '\n') ∧ noTriple (ind ++ l) = true)
